@@ -103,6 +103,16 @@ func genU32Near(t *rapid.T, label string, base uint32) uint32 {
 }
 
 // genIndex: an index into a set of n members, with the off-by-one and word-boundary values.
+func (c *cctx) genIndex(t *rapid.T, label string, n int) uint32 {
+	if c.nat(t, label) {
+		if n <= 0 {
+			return 0
+		}
+		return uint32(rapid.IntRange(0, n-1).Draw(t, label+".in"))
+	}
+	return genIndex(t, label, n)
+}
+
 func genIndex(t *rapid.T, label string, n int) uint32 {
 	switch weighted(t, label+".k", 55, 6, 6, 4, 4, 4, 4, 4, 4, 4, 5) {
 	case 0:
@@ -133,6 +143,13 @@ func genIndex(t *rapid.T, label string, n int) uint32 {
 }
 
 // genTotal: a part count around the real one; huge values only when the caller can afford what the node does with them.
+func (c *cctx) genTotal(t *rapid.T, label string, real uint32, maxHuge uint32) uint32 {
+	if c.nat(t, label) {
+		return real
+	}
+	return genTotal(t, label, real, maxHuge)
+}
+
 func genTotal(t *rapid.T, label string, real uint32, maxHuge uint32) uint32 {
 	switch weighted(t, label+".k", 55, 6, 6, 4, 3, 3, 3, 3, 3, 3, 2, 2, 2) {
 	case 0:
@@ -171,6 +188,13 @@ func min32(a, b uint32) uint32 {
 }
 
 // genHash: the real 32 bytes, or a hash of another length (ValidateHash accepts 0 or 32), or other 32 bytes.
+func (c *cctx) genHash(t *rapid.T, label string, real []byte) []byte {
+	if c.nat(t, label) && len(real) > 0 {
+		return real
+	}
+	return genHash(t, label, real)
+}
+
 func genHash(t *rapid.T, label string, real []byte) []byte {
 	if len(real) == 0 {
 		real = make([]byte, 32)
@@ -194,6 +218,17 @@ func genHash(t *rapid.T, label string, real []byte) []byte {
 
 // genBits: a bit array for a set of n members. Consistent ones (len(Elems) == ceil(Bits/64)) of the natural and of
 // other sizes, and inconsistent ones: bits without words, a word too few or too many, negative / enormous Bits.
+func (c *cctx) genBits(t *rapid.T, label string, n int) (*kbits.BitArray, string) {
+	if c.nat(t, label) && n > 0 {
+		e := make([]uint64, (n+63)/64)
+		for i := range e {
+			e[i] = rapid.Uint64().Draw(t, label+".w")
+		}
+		return &kbits.BitArray{Bits: int64(n), Elems: e}, "natural"
+	}
+	return genBits(t, label, n)
+}
+
 func genBits(t *rapid.T, label string, n int) (*kbits.BitArray, string) {
 	words := func(bits int64) int { return int((bits + 63) / 64) }
 	fill := func(k int) []uint64 {
@@ -272,6 +307,12 @@ type cctx struct {
 	fType kproto.SignedMsgType
 	fID   *kproto.BlockID
 	stick int // 0..100: how strongly generated fields keep to the focus (templates raise it)
+	calm  int // 0..100: probability that a generated field takes its natural (well-formed) value; drawn per message
+}
+
+// nat decides, per field, whether the natural value is used (see calm).
+func (c *cctx) nat(t *rapid.T, label string) bool {
+	return c.calm > 0 && weighted(t, label+".nat", c.calm, 100-c.calm) == 0
 }
 
 func (c *cctx) drawFocus(t *rapid.T) {
@@ -411,8 +452,8 @@ func (c *cctx) genBlockID(t *rapid.T, label string, maxHuge uint32) kproto.Block
 			base = c.ids[0]
 		}
 	}
-	return kproto.BlockID{Hash: genHash(t, label+".hash", base.Hash.Bytes()),
-		PartSetHeader: kproto.PartSetHeader{Total: genTotal(t, label+".total", base.PartsHeader.Total, maxHuge), Hash: genHash(t, label+".phash", base.PartsHeader.Hash.Bytes())}}
+	return kproto.BlockID{Hash: c.genHash(t, label+".hash", base.Hash.Bytes()),
+		PartSetHeader: kproto.PartSetHeader{Total: c.genTotal(t, label+".total", base.PartsHeader.Total, maxHuge), Hash: c.genHash(t, label+".phash", base.PartsHeader.Hash.Bytes())}}
 }
 
 func (c *cctx) genType(t *rapid.T, label string) kproto.SignedMsgType {
@@ -424,6 +465,13 @@ func (c *cctx) genType(t *rapid.T, label string) kproto.SignedMsgType {
 
 func genType(t *rapid.T, label string) kproto.SignedMsgType {
 	return kproto.SignedMsgType(pick(t, label, 1, 1, 1, 2, 2, 2, 0, 3, 32, -1, 1<<31-1))
+}
+
+func (c *cctx) genTime(t *rapid.T, label string) time.Time {
+	if c.nat(t, label) {
+		return time.Now().UTC()
+	}
+	return genTime(t, label)
 }
 
 func genTime(t *rapid.T, label string) time.Time {
@@ -477,9 +525,13 @@ func (c *cctx) genVote(t *rapid.T) (*kproto.Vote, string) {
 		vidx = 0
 	}
 	desc := "signed"
-	switch weighted(t, "vote.who", 75, 10, 8, 7) {
+	who := 0
+	if !c.nat(t, "vote.who") {
+		who = weighted(t, "vote.who", 40, 25, 20, 15)
+	}
+	switch who {
 	case 1:
-		vidx = genIndex(t, "vote.idx", c.nVals)
+		vidx = c.genIndex(t, "vote.idx", c.nVals)
 		desc += "+other-index"
 	case 2:
 		addr = pick(t, "vote.addr", []byte(nil), make([]byte, 20), make([]byte, 19), make([]byte, 21), c.v.nd.Addr.Bytes())
@@ -489,8 +541,8 @@ func (c *cctx) genVote(t *rapid.T) (*kproto.Vote, string) {
 		desc += "+as-victim"
 	}
 	pv := &kproto.Vote{Type: c.genType(t, "vote.type"), Height: c.nearH(t, "vote.h"), Round: c.nearR(t, "vote.r"),
-		BlockID: c.genBlockID(t, "vote.id", 1<<32-1), Timestamp: genTime(t, "vote.ts"), ValidatorAddress: addr, ValidatorIndex: vidx}
-	if weighted(t, "vote.sig", 80, 20) == 0 {
+		BlockID: c.genBlockID(t, "vote.id", 1<<32-1), Timestamp: c.genTime(t, "vote.ts"), ValidatorAddress: addr, ValidatorIndex: vidx}
+	if c.nat(t, "vote.sig") || weighted(t, "vote.sig", 50, 50) == 0 {
 		if err := types.NewDefaultPrivValidator(c.v.s.Keys[c.attacker]).SignVote(c.v.s.G.ChainID, pv); err != nil {
 			pv.Signature = genSigGarbage(t, "vote.gsig")
 			desc = "unsignable"
@@ -512,13 +564,13 @@ func (c *cctx) genProposal(t *rapid.T) (*kproto.Proposal, string) {
 	if byProposer {
 		desc = "by-proposer"
 	}
-	garbage := weighted(t, "prop.sig", 75, 25) == 1
+	garbage := !c.nat(t, "prop.sig") && weighted(t, "prop.sig", 50, 50) == 1
 	maxHuge := uint32(1 << 26)
 	if garbage || !byProposer {
 		maxHuge = 1<<32 - 1
 	}
 	pp := &kproto.Proposal{Type: genType(t, "prop.type"), Height: c.nearH(t, "prop.h"), Round: c.nearR(t, "prop.r"),
-		PolRound: pick(t, "prop.pol", 0, 0, 0, 1, c.R-1, c.R, c.R+1, 1<<32-1), BlockID: c.genBlockID(t, "prop.id", maxHuge), Timestamp: genTime(t, "prop.ts")}
+		PolRound: pick(t, "prop.pol", 0, 0, 0, 1, c.R-1, c.R, c.R+1, 1<<32-1), BlockID: c.genBlockID(t, "prop.id", maxHuge), Timestamp: c.genTime(t, "prop.ts")}
 	if garbage {
 		pp.Signature = genSigGarbage(t, "prop.gsig")
 		return pp, "garbage-sig"
@@ -543,10 +595,14 @@ func (c *cctx) genPart(t *rapid.T) (kproto.Part, string) {
 	} else {
 		base = kproto.Part{Index: 0, Bytes: []byte("part bytes"), Proof: kcrypto.Proof{Total: 1, Index: 0, LeafHash: make([]byte, 32)}}
 	}
-	for i, n := 0, weighted(t, "part.nm", 35, 40, 25); i < n; i++ {
+	nm := 0
+	if !c.nat(t, "part.nm") {
+		nm = weighted(t, "part.nm", 10, 60, 30)
+	}
+	for i := 0; i < nm; i++ {
 		switch weighted(t, "part.m", 10, 10, 10, 10, 8, 8, 6, 6, 6, 6) {
 		case 0:
-			base.Index = genIndex(t, "part.index", int(base.Proof.Total))
+			base.Index = c.genIndex(t, "part.index", int(base.Proof.Total))
 			desc += "+index"
 		case 1:
 			base.Proof.Index = genU64Near(t, "part.pindex", uint64(base.Index))
@@ -555,7 +611,7 @@ func (c *cctx) genPart(t *rapid.T) (kproto.Part, string) {
 			base.Proof.Total = genU64Near(t, "part.ptotal", base.Proof.Total)
 			desc += "+proof.total"
 		case 3:
-			base.Proof.LeafHash = genHash(t, "part.leaf", base.Proof.LeafHash)
+			base.Proof.LeafHash = c.genHash(t, "part.leaf", base.Proof.LeafHash)
 			desc += "+leaf"
 		case 4:
 			k := pick(t, "part.aunts", 1, 2, 30, 100, 101, 1000)
@@ -622,6 +678,8 @@ var templates = [][]int{
 }
 
 func (c *cctx) structuredType(t *rapid.T, k int) wire {
+	// most messages deviate from a well-formed one in one or two fields only, some in many
+	c.calm = pick(t, "calm", 96, 96, 92, 85, 70, 40, 0)
 	switch k {
 	case 0:
 		step := pick(t, "nrs.step", uint32(1), 2, 3, 4, 5, 6, 7, 8, 0, 9, 255, 256+3, 1<<32-1)
@@ -642,14 +700,14 @@ func (c *cctx) structuredType(t *rapid.T, k int) wire {
 		if nat > 1<<20 {
 			nat = 1 << 20
 		}
-		b, bd := genBits(t, "nvb.bits", nat)
+		b, bd := c.genBits(t, "nvb.bits", nat)
 		return wire{ch: consensus.StateChannel, desc: "NewValidBlock/" + bd, data: encCons(&kcons.NewValidBlock{Height: c.nearH(t, "nvb.h"), Round: c.nearR(t, "nvb.r"),
 			BlockPartSetHeader: id.PartSetHeader, BlockParts: b, IsCommit: rapid.Bool().Draw(t, "nvb.commit")})}
 	case 2:
 		pp, d := c.genProposal(t)
 		return wire{ch: consensus.DataChannel, desc: "Proposal/" + d, data: encCons(&kcons.Proposal{Proposal: *pp})}
 	case 3:
-		b, bd := genBits(t, "pol.bits", c.nVals)
+		b, bd := c.genBits(t, "pol.bits", c.nVals)
 		return wire{ch: consensus.DataChannel, desc: "ProposalPOL/" + bd, data: encCons(&kcons.ProposalPOL{Height: c.nearH(t, "pol.h"),
 			ProposalPolRound: pick(t, "pol.r", 0, 1, 1, c.R-1, c.R, c.R+1, 1<<32-1), ProposalPol: bitsVal(b)})}
 	case 4:
@@ -660,12 +718,12 @@ func (c *cctx) structuredType(t *rapid.T, k int) wire {
 		return wire{ch: consensus.VoteChannel, desc: "Vote/" + d, data: encCons(&kcons.Vote{Vote: pv})}
 	case 6:
 		return wire{ch: consensus.StateChannel, desc: "HasVote", data: encCons(&kcons.HasVote{Height: c.nearH(t, "hv.h"), Round: c.nearR(t, "hv.r"),
-			Type: c.genType(t, "hv.type"), Index: genIndex(t, "hv.idx", c.nVals)})}
+			Type: c.genType(t, "hv.type"), Index: c.genIndex(t, "hv.idx", c.nVals)})}
 	case 7:
 		return wire{ch: consensus.StateChannel, desc: "VoteSetMaj23", data: encCons(&kcons.VoteSetMaj23{Height: c.nearH(t, "m23.h"), Round: c.nearR(t, "m23.r"),
 			Type: c.genType(t, "m23.type"), BlockID: c.genBlockID(t, "m23.id", 1<<32-1)})}
 	}
-	b, bd := genBits(t, "vsb.bits", c.nVals)
+	b, bd := c.genBits(t, "vsb.bits", c.nVals)
 	return wire{ch: consensus.VoteSetBitsChannel, desc: "VoteSetBits/" + bd, data: encCons(&kcons.VoteSetBits{Height: c.nearH(t, "vsb.h"), Round: c.nearR(t, "vsb.r"),
 		Type: c.genType(t, "vsb.type"), BlockID: c.genBlockID(t, "vsb.id", 1<<32-1), Votes: bitsVal(b)})}
 }
